@@ -11,8 +11,12 @@ COMMON_ASSUMPTIONS = [
     "foreign crates are leaves: assumed to meet their documented post-conditions and unable to touch limb storage "
     "(private field); value-range summaries of core functions (leading_zeros in [0,64], Range::next < end, "
     "slice::len) are trusted",
-    "implicit panic sites (bounds checks, slice ranges) inside algorithms:: are the value contract of C14/C15 (not "
-    "applicable) and are trusted leaves; explicit sites there are inventoried",
+    "implicit panic sites (bounds checks, slice ranges) inside src/algorithms/div and src/algorithms/gcd are inventoried "
+    "by the properties that own those kernels (C03, C11, C12, C14) and are trusted leaves for the others; explicit "
+    "sites there are inventoried by all; arithmetic-overflow assertions inside those two directories are trusted leaves "
+    "in the overflow-checks clause",
+    "D-lin (vcheck/linear.py): unsigned additions bounded by a slice length do not wrap; the documented length "
+    "preconditions of tables/linear_pre.json are assumed inside the named kernels and proved at their call sites",
 ]
 
 TOTAL_FLOORS = {"C11": 4, "C12": 14, "C14": 14, "C15": 15, "C01": 28, "C02": 13, "C03": 7, "C05": 98, "C06": 36, "C07": 54, "C08": 11, "C09": 12, "C10": 5,
